@@ -81,7 +81,7 @@ fn exec<D: Doc>(p: &PrepDoc<D>, residue: usize) -> Result<(u64, &'static str, us
 }
 
 pub fn n_units(tier: Tier) -> u64 {
-    n_docs() * values_per_doc(tier, 40, 40000)
+    placement_docs().len() as u64 * values_per_doc(tier, 40, 40000)
 }
 
 struct RunUnit<'a> {
@@ -144,12 +144,12 @@ impl DocFn for RunUnit<'_> {
 }
 
 pub fn run_unit(ctx: &mut Ctx, unit: u64) {
-    let (doc, vi) = unit_doc(unit);
+    let (doc, vi) = unit_doc_placement(unit);
     docs::dispatch(doc, RunUnit { ctx, unit, vi });
 }
 
 pub fn case_at(_ctx: &mut Ctx, unit: u64, sub: u64) -> Option<serde_json::Value> {
-    let (doc, vi) = unit_doc(unit);
+    let (doc, vi) = unit_doc_placement(unit);
     Some(serde_json::to_value(&Case { doc: doc.into(), vi, residue: sub as usize }).unwrap())
 }
 
